@@ -58,6 +58,7 @@ def run(chk):
     gen_c18.generate()          # T-data / source-shape facts regenerated from /repo on every run
     chk.trusted.append('harness/shape.py: AST lookup of the statements mirrored by the hand model (Gen/C18Shape.v)')
     proved = chk.prove(['theories/Gen/C18Shape.v', 'theories/C18/Model.v', 'theories/C18/Proofs.v', 'theories/C18/Run.v'], 'theories/C18/Properties.v')
+    proved = chk.prove(['theories/C18/Conversion.v'], 'theories/C18/ConversionProperties.v') and proved
     model_ok = True
     if not proved:
         try:
